@@ -5,6 +5,7 @@
 #include "../shim/rtr_shim.h"
 extern "C" {
 #include "rtrlib/rtr_mgr.h"
+#include "rtrlib/pfx/pfx_private.h"
 }
 #include <rapidcheck.h>
 #include <arpa/inet.h>
@@ -15,7 +16,7 @@ static const uint32_t AS_SET[6] = {0, 1, 2, 3, 65000, 0xffffffffu};
 static struct rtr_socket g_socks[4]; // only their addresses are used (record source)
 
 struct Op {
-	char kind = 'A'; // A add, R remove, S src_remove, Q query, C chain, F free+reinit
+	char kind = 'A'; // A add, R remove, S src_remove, Q query, C chain, F free+reinit, W reload (copy aside, load, swap, diff)
 	int fam = 0, b = 0, len = 0, flip = 0, maxlen = 0, asn = 0, src = 0;
 	int k = -1;   // >=0: refer to the (k mod n)-th record currently in the model
 	int mode = 0; // variant, see run_case
@@ -193,7 +194,15 @@ static rc::Gen<Op> genOp()
 		p.kind = 'F';
 		return p;
 	}());
-	return gen::weightedOneOf<Op>({{36, genAdd2}, {20, genRem}, {4, genSrc}, {34, genQ}, {4, genChain}, {1, genFree}});
+	auto genReload = gen::apply(
+		[](Op p, int keep, int n) {
+			p.kind = 'W';
+			p.mode = keep; // keep every (keep+1)-th old record of the source (0: all, 5: none)
+			p.ext = n;     // number of new records
+			return p;
+		},
+		genAdd, rng<int>(0, 5), rng<int>(0, 6));
+	return gen::weightedOneOf<Op>({{36, genAdd2}, {20, genRem}, {4, genSrc}, {34, genQ}, {4, genChain}, {1, genFree}, {4, genReload}});
 }
 
 static rc::Gen<Case> genCase()
@@ -226,6 +235,7 @@ struct Ctx {
 	bool mirror_bad = false;
 	std::string mirror_msg;
 	struct pfx_table *live = nullptr;
+	std::vector<std::pair<Rec, bool>> events; // every callback in order (cleared by the reload op: net-difference oracle)
 };
 static Ctx *g_ctx;
 
@@ -293,6 +303,7 @@ static void update_cb(struct pfx_table *t, const struct pfx_record rec, const bo
 	Ctx *c = g_ctx;
 	if (!c || t != c->live) return;
 	Rec m = from_lib(&rec);
+	c->events.push_back({m, added});
 	if (added) {
 		if (!c->mirror.insert(m).second && !c->mirror_bad) {
 			c->mirror_bad = true;
@@ -525,6 +536,61 @@ static vf::Result run_case(const Case &c, vf::Stats *st, RunInfo *info_out = nul
 				do_add(r, "chain-add");
 				if (!res.ok) break;
 			}
+			check_contents(tag.c_str());
+			break;
+		}
+		case 'W': { // the reload sequence of rtr_sync: everybody else's records copied aside, new set loaded, swap, diff
+			int sidx = (unsigned)p.src % 3;
+			if (st) st->cls("reload(copy+swap+diff)");
+			struct pfx_table sh;
+			pfx_table_init(&sh, nullptr);
+			int rc = pfx_table_copy_except_socket(&tab, &sh, &g_socks[sidx]);
+			if (rc != 0) FAIL("C02:copy-rc", "pfx_table_copy_except_socket returned " + std::to_string(rc));
+			pm::Table m2 = model;
+			m2.src_remove(sidx);
+			std::vector<Rec> old_mine;
+			for (auto &r : model.s) if (r.src == sidx) old_mine.push_back(r);
+			auto shadow_add = [&](const Rec &r) {
+				int want = m2.add(r);
+				struct pfx_record lr = to_lib(r);
+				int got = pfx_table_add(&sh, &lr);
+				if (got != want) FAIL("C02:add-rc", "add to the shadow table " + r.str() + " returned " + std::to_string(got) + ", model says " + std::to_string(want));
+			};
+			int i = 0;
+			for (auto &r : old_mine) if (p.mode < 5 && i++ % (p.mode + 1) == 0) shadow_add(r);
+			for (int j = 0; j < p.ext % 7 && res.ok; j++) {
+				Rec r;
+				r.fam = (p.fam + j) & 1;
+				int W = pm::width(r.fam);
+				r.len = std::min(std::max(p.len + 3 * j, 0), W);
+				r.a = universe_addr(c, r.fam, p.b + j, r.len, p.flip);
+				r.maxlen = (uint8_t)std::max<int>(r.len, std::min<int>(W, p.maxlen));
+				r.asn = AS_SET[(unsigned)(p.asn + j) % 6];
+				r.src = sidx;
+				shadow_add(r);
+			}
+			if (!res.ok) { pfx_table_free_without_notify(&sh); break; }
+			if (ctx.mirror_bad) { FAIL("C09:spurious-callback", ctx.mirror_msg + " (before the reload of " + tag + ")"); pfx_table_free_without_notify(&sh); break; }
+			ctx.events.clear();
+			pfx_table_swap(&tab, &sh);
+			pfx_table_notify_diff(&tab, &sh, &g_socks[sidx]);
+			// C09: "an atomic reload (where only the net difference for the reloading cache is reported)": one 'added' per record of
+			// new \ old, one 'removed' per record of old \ new, nothing else
+			{
+				std::multiset<std::pair<Rec, bool>> got(ctx.events.begin(), ctx.events.end()), want;
+				for (auto &r : m2.s) if (!model.s.count(r)) want.insert({r, true});
+				for (auto &r : model.s) if (!m2.s.count(r)) want.insert({r, false});
+				if (got != want) {
+					std::ostringstream o;
+					int n = 0;
+					for (auto &e : got) if (got.count(e) > want.count(e) && n++ < 4) o << " surplus{" << (e.second ? "added " : "removed ") << e.first.str() << "}";
+					for (auto &e : want) if (!got.count(e) && n++ < 4) o << " missing{" << (e.second ? "added " : "removed ") << e.first.str() << "}";
+					FAIL("C09:reload-not-net-difference", "the callbacks of an atomic reload (" + std::to_string(got.size()) + ") are not the net difference (" + std::to_string(want.size()) + " changes):" + o.str());
+				}
+				if (st && !want.empty() && want.size() < m2.s.size()) st->cls("reload-with-unchanged-and-changed-records");
+			}
+			model = m2;
+			pfx_table_free_without_notify(&sh);
 			check_contents(tag.c_str());
 			break;
 		}
